@@ -410,7 +410,7 @@ func (p *concPeer) await(ch <-chan struct{}, v *quickfix.VerifConcSession) strin
 			if n != last {
 				last, lastChange = n, time.Now()
 			}
-			if time.Since(lastChange) > 2*time.Second || time.Now().After(deadline) {
+			if time.Since(lastChange) > 3*time.Second || time.Now().After(deadline) {
 				return "stalled"
 			}
 		}
@@ -445,7 +445,7 @@ func pause(r *rng) {
 	}
 }
 
-const concStall = 10 * time.Second
+const concStall = 15 * time.Second
 
 func rangesOf(xs []int) string {
 	if len(xs) == 0 {
@@ -632,7 +632,7 @@ func (c *concImpl) round(kv map[string]string) string {
 			if count != lastCount {
 				lastCount, lastChange = count, time.Now()
 			}
-			if !missing || !consecutive || time.Since(lastChange) > 1500*time.Millisecond {
+			if !missing || !consecutive || time.Since(lastChange) > 3*time.Second {
 				break
 			}
 			time.Sleep(200 * time.Microsecond)
@@ -793,9 +793,10 @@ func concSrcFacts() string {
 // running and the next round gets a fresh worker.
 
 type concSupervisor struct {
-	cmd *exec.Cmd
-	in  *bufio.Writer
-	out *bufio.Reader
+	cmd     *exec.Cmd
+	in      *bufio.Writer
+	out     *bufio.Reader
+	retried int
 }
 
 func (c *concSupervisor) reset(string) {}
@@ -808,7 +809,57 @@ func (c *concSupervisor) stop() {
 	}
 }
 
+// timingOnly: outcomes that a starved machine could produce on a healthy engine — a stall, or numbers handed out
+// consecutively but not all read from the connection before the wait gave up.  Such a round is repeated (same op, at
+// most twice, at most concRetryBudget rounds per run) and only the last attempt is reported; a broken engine fails
+// every attempt (and usually other clauses as well).
+func timingOnly(obs string) bool {
+	if strings.HasPrefix(obs, "stalled") {
+		return true
+	}
+	w := strings.Fields(obs)
+	if len(w) < 5 || w[0] != "ok" || w[4] != "1" {
+		return false
+	}
+	next, seen := -1, map[int]bool{}
+	var asg []int
+	for _, t := range w[5:] {
+		switch {
+		case t == "R":
+			next, asg = -1, asg[:0]
+			seen = map[int]bool{}
+		case t[0] == 'a':
+			n, _ := strconv.Atoi(t[1:strings.IndexByte(t, '.')])
+			if next >= 0 && n != next {
+				return false
+			}
+			next = n + 1
+			asg = append(asg, n)
+		case t[0] == 'w' && strings.HasSuffix(t, "f"):
+			n, _ := strconv.Atoi(t[1 : len(t)-1])
+			seen[n] = true
+		}
+	}
+	for _, n := range asg {
+		if !seen[n] {
+			return true
+		}
+	}
+	return false
+}
+
+const concRetryBudget = 12
+
 func (c *concSupervisor) exec(op string) string {
+	obs := c.exec1(op)
+	for i := 0; i < 2 && timingOnly(obs) && c.retried < concRetryBudget; i++ {
+		c.retried++
+		obs = c.exec1(op)
+	}
+	return obs
+}
+
+func (c *concSupervisor) exec1(op string) string {
 	if strings.TrimSpace(op) == "srcfacts" {
 		return guard(concSrcFacts)
 	}
